@@ -3,8 +3,8 @@ from vp.kani import Ob
 META = {
     "functions_encoded": ["rlib_segtree::Segtree::{new_raw,new,from_slice,from_iter,rebuild,rebuild_empty,set,set_internal,ask,ask_internal,modify,modify_internal,push_at,merge_at,lower_bound*,verif_nodes(hook)}",
                           "segtree_items::{Min,Max,Sum,MinAdd,MaxAdd,SumAdd,Combinator}::{merge,modify,push,default,from}", "SegtreeItem::update (default)"],
-    "bounds": {"quick": "free-monoid item with Add|Assign modifiers: every lazy state (arbitrary pending modifier on every node) x 1 arbitrary operation x arbitrary ask, n in 1..=6; constructors n in {1,3,5}; built-in items n<=6 (values |v|<=3..100)",
-               "thorough": "n in 1..=8, 2 operations at n in {3,4}, built-in lazy items and nested combinator up to n=8"},
+    "bounds": {"quick": "free-monoid item with Add|Assign modifiers: every lazy state (arbitrary pending modifier on every node) x every modify(l,r) / set(p) / ask(l,r) with symbolic modifier or value, n in 1..=5; constructors n in {1,3,5}; built-in items n<=6 (values |v|<=3..100)",
+               "thorough": "n in 1..=8; built-in lazy items and nested combinator up to n=5"},
     "outside_claim": ["n > 8", "histories are covered by induction: arbitrary state satisfying the representation invariant I + abstraction A, one step, I and A re-established (checked on the raw node array through the hook); parametricity of the container in the item type is a meta-argument",
                       "overflow of i16/i64 payloads", "debug() string rendering"],
     "stubs_and_assumes": ["SumAdd/MinAdd/MaxAdd are instantiated at a harness numeric type W(i8) whose Mul is shift-add (same value as *, cheaper circuit)",
@@ -18,23 +18,29 @@ def obligations(tier, seed):
     def add(mod, h, **kw):
         kw.setdefault("timeout", 1500 if tier == "quick" else 4000)
         obs.append(Ob("seg", mod + "::" + h, **kw))
-    ns = range(1, 7) if tier == "quick" else range(1, 9)
+    ns = range(1, 6) if tier == "quick" else range(1, 9)
     for n in ns:
-        add("c01", "c01_step_n%d" % n, covers=3, desc="arbitrary lazy state + 1 op (modify/set/ask/search) + ask = model slice; invariant and abstraction re-established", bounds="n=%d, free-monoid item" % n)
+        for l in range(n):
+            add("c01", "c01_modify_n%d_l%d" % (n, l), desc="arbitrary lazy state, modify(l, r) for every r >= l with a symbolic modifier: invariant I and abstraction A hold afterwards", bounds="n=%d, l=%d" % (n, l))
+            add("c01", "c01_ask_n%d_l%d" % (n, l), desc="arbitrary lazy state, ask(l, r) for every r >= l = model slice (letter by letter); state consistent afterwards", bounds="n=%d, l=%d" % (n, l))
+        add("c01", "c01_set_n%d" % n, desc="arbitrary lazy state, set(p) for every p: I and A afterwards", bounds="n=%d" % n)
+        add("c01", "c01_two_n%d" % n, desc="two overlapping modifications then a query", bounds="n=%d" % n)
         add("c01", "c01_builder_n%d" % n, covers=2, desc="state builder yields states satisfying the invariant with arbitrary pending modifiers", bounds="n=%d" % n)
     for n in ((1, 3, 5) if tier == "quick" else (1, 3, 5, 8)):
-        add("c01", "c01_ctor_n%d" % n, covers=3, desc="new / from_slice / from_iter establish the invariant (base case)", bounds="n=%d" % n)
-    add("builtin", "c01_min_n6", covers=1, desc="Min<i16>: 2 steps then ask = fold", bounds="n=6")
-    add("builtin", "c01_max_n6", covers=1, desc="Max<i16>", bounds="n=6")
-    add("builtin", "c01_sum_n6", covers=1, desc="Sum<i16>", bounds="n=6")
-    add("builtin", "c01_minadd_n3", covers=1, desc="MinAdd: arbitrary pending adds + 1 step + ask = fold", bounds="n=3")
-    add("builtin", "c01_sumadd_n3", covers=1, desc="SumAdd", bounds="n=3")
-    add("builtin", "c01_maxadd_n5" if tier == "thorough" else "c01_minadd_n5", covers=1, desc="MinAdd/MaxAdd", bounds="n=5")
-    add("builtin", "c01_combinator_n3", covers=1, desc="Combinator<SumAdd, Combinator<MinAdd, MaxAdd>> = the three folds side by side", bounds="n=3")
+        add("c01", "c01_ctor_n%d" % n, covers=2, desc="new / from_slice / from_iter from elements that may carry a pending modifier: queries = the letters given (base case)", bounds="n=%d" % n)
+    add("c01", "c01_ctorinv_n3", desc="from_slice / from_iter establish I and A on the raw node array", bounds="n=3")
+    add("c01", "c01_ctorinv_n6", desc="from_slice / from_iter establish I and A on the raw node array", bounds="n=6")
+    for it in ("minadd", "maxadd", "sumadd"):
+        add("builtin", "c01_%s_ctor_md" % it, covers=2, desc="built-in lazy item: new/from_slice from elements with a non-zero pending add", bounds="n=3")
+    add("builtin", "c01_min_n6", desc="Min<i16>: 2 steps then every ask = fold", bounds="n=6")
+    add("builtin", "c01_max_n6", desc="Max<i16>", bounds="n=6")
+    add("builtin", "c01_sum_n6", desc="Sum<i16>", bounds="n=6")
+    add("builtin", "c01_minadd_n3", desc="MinAdd: arbitrary pending adds + 1 step at every range + asks = fold", bounds="n=3")
+    add("builtin", "c01_maxadd_n3", desc="MaxAdd", bounds="n=3")
+    add("builtin", "c01_sumadd_n3", desc="SumAdd", bounds="n=3")
+    add("builtin", "c01_combinator_n3", desc="Combinator<SumAdd, Combinator<MinAdd, MaxAdd>> = the three folds side by side", bounds="n=3")
     add("c01", "c01_twin_false", expect="fail", desc="deliberately false twin")
     if tier == "thorough":
-        add("c01", "c01_step2_n3", covers=3, desc="two operations", bounds="n=3,K=2")
-        add("c01", "c01_step2_n4", covers=3, desc="two operations", bounds="n=4,K=2")
-        for h in ("c01_minadd_n5", "c01_sumadd_n4", "c01_sumadd_n5", "c01_minadd_n8", "c01_maxadd_n8", "c01_sumadd_n8", "c01_combinator_n5", "c01_combinator_n7"):
-            add("builtin", h, covers=1, desc="built-in lazy item, deeper", bounds=h)
+        for h in ("c01_minadd_n5", "c01_maxadd_n5", "c01_sumadd_n4", "c01_sumadd_n5", "c01_combinator_n5"):
+            add("builtin", h, desc="built-in lazy item, deeper", bounds=h)
     return obs
